@@ -1,6 +1,7 @@
 import TantivyModel.Proofs.Columnar.Mapping
 import TantivyModel.Proofs.Columnar.LinearColumn
 import TantivyModel.Proofs.Columnar.Stack
+import TantivyModel.Proofs.Columnar.Writer
 import TantivyModel.Proofs.Columnar.OptRankSelect
 /-!
 # C08 — Fast fields return exactly the values that were indexed
@@ -201,16 +202,41 @@ theorem C08_multivalued_ranges {V : Type} (rows : Column V) :
     read (encodeAs .multivalued rows).1 (encodeAs .multivalued rows).2 = rows :=
   read_encodeAs .multivalued rows trivial
 
-/- Full statement still open (kept visible): `C08_writer_pipeline` from the *operation log*
-   (`NewDoc d` / `Value v` symbols, cardinality detection while recording, numeric coercion).
-   Proved part: from the rows to (index, values) and back. -/
-/-- writer pipeline, index part: for every cardinality that fits the rows (Full needs one value in
-every row, Optional at most one) the written (index, values) reads back as the rows, and the
-detected cardinality always fits -/
-theorem C08_writer_pipeline_partial {V : Type} (rows : Column V) :
-    (∀ card : Card, card.fits rows → read (encodeAs card rows).1 (encodeAs card rows).2 = rows) ∧
-    (detectCard rows).fits rows :=
-  ⟨fun card h => read_encodeAs card rows h, detectCard_fits rows⟩
+/-- writer pipeline from the operation log: recording every value of every document
+(`ColumnWriter::record`: `NewDoc`/`Value` symbols, `delta_with_last_doc` cardinality detection),
+`get_cardinality(num_docs)`, and replaying the log into the index builder of that cardinality
+(`consume_operation_iterator`, Optional/Multivalued index builders) writes exactly
+`encodeAs (detectCard rows) rows`, which reads back as the rows: every document returns exactly
+its values in insertion order, none when absent. -/
+theorem C08_writer_pipeline {V : Type} (rows : Column V) :
+    writerEncode rows = encodeAs (detectCard rows) rows ∧
+    read (writerEncode rows).1 (writerEncode rows).2 = rows := by
+  have h := writerEncode_eq rows
+  exact ⟨h, by rw [h]; exact read_encodeAs _ rows (detectCard_fits rows)⟩
+
+/-- for every cardinality that fits the rows (Full needs one value in every row, Optional at most
+one) the written (index, values) reads back as the rows — the merge may pick a larger cardinality
+than the writer -/
+theorem C08_column_index_roundtrip {V : Type} (rows : Column V) (card : Card) (hfit : card.fits rows) :
+    read (encodeAs card rows).1 (encodeAs card rows).2 = rows :=
+  read_encodeAs card rows hfit
+
+/-- numeric coercion (`CompatibleNumericalTypes` + `Coerce`): when the detected column type is an
+integer type, every recorded value is an integer, is coerced without reaching `unreachable!()`, and
+the stored 64-bit pattern denotes the same number in the column's type — coercion is exact, hence
+injective and order preserving, on the values present. (A mixed column that falls back to f64
+stores `v as f64`, which is lossy above 2^53 by design; floats are opaque to the kernel and that
+case is checked by the harness only.) -/
+theorem C08_numeric_coercion_exact (vals : List NumVal) (ht : numTypeOf vals ≠ .f64) :
+    ∀ v ∈ vals, ∃ x n, coerceInt (numTypeOf vals) v = some x ∧ v.intValue = some n
+      ∧ storedInt (numTypeOf vals) x = n :=
+  coercion_exact vals ht
+
+example : numTypeOf [.i64 5#64, .u64 7#64] = .i64 ∧ numTypeOf [.u64 (BitVec.ofNat 64 (2 ^ 63)), .u64 1#64] = .u64
+    ∧ numTypeOf [.u64 (BitVec.ofNat 64 (2 ^ 63)), .i64 (BitVec.ofInt 64 (-1))] = .f64 := by decide
+example : writerEncode [[1, 2], [], [3], []] = (.multivalued [0, 2] 4 [0, 2, 3], [1, 2, 3]) := by decide
+example : (writerEncode [[1], [2]]).1 = .full ∧ (writerEncode [[1], [], [2]]).1 = .optional [0, 2] 3
+    ∧ (writerEncode [[1], []]).1 = .optional [0] 2 := by decide
 
 example : read (encodeAs .multivalued [[1, 2], [], [3], []]).1 (encodeAs .multivalued [[1, 2], [], [3], []]).2
     = [[1, 2], [], [3], []] := by decide
